@@ -14,6 +14,12 @@ import TracklibVerif.Drv.Util
                                   `uid`, `tid`, `base`, the feature dict `names[i] ↦ cols[i]` and one feature row per fix
                                   (NaN = `nan`). Reply: `<kept tags> <uid> <tid> <base|_> <names> <cols> <rows>` of the result,
                                   or `err:<Python exception>` / `unsupported` (modes 3 … 8)
+  trkn <mode> <eps> <xs> <ys> <uid> <tid> <base|_> <names> <cols> <rows> <no_data_value|_>
+                                → `simplify` on a track that carries the attribute `no_data_value` (`simplifyN`): the reply of `trk`
+                                  followed by the result's `no_data_value` (`_` = None)
+  net <mode> <eps> <k> then k × (<xs> <ys> <uid> <tid> <base|_> <names> <cols> <rows> <no_data_value|_>)
+                                → `Network.simplify(eps, mode)` on a network whose k edges have these geometries (`netSimplify`):
+                                  the k replies of `trkn` separated by ` | `, or the first error
   mode <int>                    → which algorithm `simplify` dispatches to -/
 namespace TV.Drv.C16
 open TV.Simplify TV.Drv
@@ -56,9 +62,70 @@ def handleTrk (args : List String) : String :=
     | _, _, _, _, _, _, _, _ => "bad-request"
   | _ => "bad-request"
 
+/-- a track with its attributes from nine tokens -/
+def parseTrkN (args : List String) : Option (TrkN Float) :=
+  match args with
+  | [xs, ys, uid, tid, base, names, cols, rows, nd] =>
+    match floatList? xs, floatList? ys, uid.toNat?, tid.toNat?, natList? cols, floatListList? rows with
+    | some xs, some ys, some uid, some tid, some cols, some rows =>
+      let names := splitTok names ','
+      let base? : Option (Option Nat) := if base == "_" then some none else base.toNat?.map some
+      let nd? : Option (Option Float) := if nd == "_" then some none else (float? nd).map some
+      let rows := if rows.isEmpty then List.replicate xs.length [] else rows
+      match base?, nd? with
+      | some base, some nd =>
+        if xs.length != ys.length || rows.length != xs.length || names.length != cols.length then none else
+        let pts : List (Ob Float) := ((mkTrack xs ys).zip rows).map (fun p => ⟨p.1, p.2.map optF⟩)
+        some ⟨⟨pts, ⟨uid, tid, base⟩, names.zip cols⟩, nd⟩
+      | _, _ => none
+    | _, _, _, _, _, _ => none
+  | _ => none
+
+def showTrkN (T : TrkN Float) : String :=
+  showTrk T.trk ++ " " ++ (match T.nodata with | none => "_" | some v => showFloat v)
+
+def showErr (e : String) : String := if e == "unsupported" then "unsupported" else "err:" ++ e
+
+def handleTrkN (args : List String) : String :=
+  match args with
+  | m :: e :: rest =>
+    match m.toInt?, float? e, parseTrkN rest with
+    | some mode, some eps, some T =>
+      match simplifyN Float.sqrt big T eps mode with
+      | .ok O => showTrkN O
+      | .error e => showErr e
+    | _, _, _ => "bad-request"
+  | _ => "bad-request"
+
+/-- `k` groups of nine tokens -/
+def parseGeoms : Nat → List String → Option (List (TrkN Float))
+  | 0, [] => some []
+  | 0, _ :: _ => none
+  | k + 1, args =>
+    match parseTrkN (args.take 9), parseGeoms k (args.drop 9) with
+    | some T, some r => some (T :: r)
+    | _, _ => none
+
+def handleNet (args : List String) : String :=
+  match args with
+  | m :: e :: k :: rest =>
+    match m.toInt?, float? e, k.toNat? with
+    | some mode, some eps, some k =>
+      if rest.length != 9 * k then "bad-request" else
+      match parseGeoms k rest with
+      | some G =>
+        match netSimplify Float.sqrt big G eps mode with
+        | .ok O => if O.isEmpty then "_" else " | ".intercalate (O.map showTrkN)
+        | .error e => showErr e
+      | none => "bad-request"
+    | _, _, _ => "bad-request"
+  | _ => "bad-request"
+
 def handle (cmd : String) (args : List String) : String :=
   match cmd, args with
   | "trk", _ => handleTrk args
+  | "trkn", _ => handleTrkN args
+  | "net", _ => handleNet args
   | "mode", [m] =>
     match m.toInt? with
     | some mode => toString (repr (dispatch mode))
